@@ -93,7 +93,24 @@ func setLimit(n int64) func(w *world) {
 	return func(w *world) { w.editPkg(func(p *v1.Provider) { p.Spec.RevisionHistoryLimit = &n }) }
 }
 
-func menu(thorough bool) []event {
+// menu returns the event menu: "base" (8 events), "all" (14) or "registry"
+// (reconcile, two sources, re-tag, registry failure, pull policy).
+func menu(which string) []event {
+	m := menuAll(which != "base")
+	if which != "registry" {
+		return m
+	}
+	var out []event
+	for _, e := range m {
+		switch e.name {
+		case "reconcile", "src=v1", "src=v2", "retag-v1", "registry-fail-toggle", "pull-ifnotpresent-toggle":
+			out = append(out, e)
+		}
+	}
+	return out
+}
+
+func menuAll(thorough bool) []event {
 	m := []event{
 		{"reconcile", nil},
 		{"src=v1", setSource("v1")},
@@ -160,7 +177,8 @@ func regKey(reg *pkgh.Registry) string {
 	return fmt.Sprintf("%v fail=%v", ks, reg.Fail)
 }
 
-func body(r *explore.Run, rep *report.R, sc string, depth int, thorough bool, history bool) {
+func body(r *explore.Run, rep *report.R, sc string, depth int, which string, start string) {
+	history := start == "history"
 	xrh.BeginExecution(1)
 	s := xrh.NewStore()
 	reg := &pkgh.Registry{Table: map[string]string{repoName + ":v1": "A", repoName + ":v2": "B", repoName + ":v3": "C", repoName + ":v1b": "A"}}
@@ -176,7 +194,16 @@ func body(r *explore.Run, rep *report.R, sc string, depth int, thorough bool, hi
 	s.Inj = inj
 	c := s.Client("pkgmgr")
 	rec := pkgh.NewProviderManager(c, reg)
-	evs := menu(thorough)
+	evs := menu(which)
+	if start == "established" {
+		// Prepared: source v1 resolved and its revision current.
+		for i := 0; i < 2; i++ {
+			xrh.Reconcile(rec, types.NamespacedName{Name: "p"})
+		}
+		if len(revisions(s)) != 1 {
+			panic(explore.HarnessError{Msg: "established preparation: " + describe(revisions(s))})
+		}
+	}
 	if history {
 		// Prepared (fault-free, not explored): sources v1, v2, v3 in turn
 		// with limit 1, which leaves revisions B#2 and C#3 (A was collected).
@@ -209,12 +236,27 @@ func body(r *explore.Run, rep *report.R, sc string, depth int, thorough bool, hi
 	})
 	var trail []string
 	reconciles, faulted := 0, 0
+	// possible[source]: the revision names of every digest the source's tag
+	// has pointed at during this history (re-tags included). Whatever the pull
+	// policy and whether or not a reconcile asks the registry, the revision it
+	// makes current must be one of them for the package's source.
+	possible := map[string]map[string]bool{}
+	track := func() {
+		for src, l := range reg.Table {
+			if possible[src] == nil {
+				possible[src] = map[string]bool{}
+			}
+			possible[src][xpkg.FriendlyID("p", pkgh.Digest(l))] = true
+		}
+	}
+	track()
 	for step := 0; step < depth; step++ {
-		r.SeenRank(report.Hash(s.Canonical(), regKey(reg)), depth-step)
+		r.SeenRank(report.Hash(s.Canonical(), regKey(reg), fmt.Sprint(possible)), depth-step)
 		e := evs[r.Free(len(evs), fmt.Sprintf("ev%d", step))]
 		trail = append(trail, e.name)
 		if e.do != nil {
 			e.do(w)
+			track()
 			r.Logf("step %d: %s", step, e.name)
 			continue
 		}
@@ -286,6 +328,21 @@ func body(r *explore.Run, rep *report.R, sc string, depth int, thorough bool, hi
 				r.Failf("A4/gc-not-oldest", "history GC deleted %s but the oldest non-current revision is %s (%s)", victim, oldest, describe(pre))
 			}
 		}
+		// A2 (source): a completed, fault-free reconcile - whether or not it
+		// asked the registry - leaves as current revision one of a digest the
+		// current source's tag has pointed at.
+		if out.Err == nil && !out.Result.Requeue && out.Crashed == nil && !wasFaulted {
+			pk := &v1.Provider{}
+			s.PeekInto(pkgKey, pk)
+			if cr := pk.Status.CurrentRevision; cr != "" && !possible[pk.Spec.Package][cr] {
+				var ps []string
+				for k := range possible[pk.Spec.Package] {
+					ps = append(ps, k)
+				}
+				sort.Strings(ps)
+				r.Failf("A2/current-not-for-source", "a completed reconcile leaves %s as the current revision of source %s, whose tag has only ever pointed at %v (registry failing: %v; revisions %s)", cr, pk.Spec.Package, ps, reg.Fail, describe(post))
+			}
+		}
 		// A2 after a completed, fault-free reconcile that resolved the source.
 		if out.Err == nil && !out.Result.Requeue && out.Crashed == nil && !wasFaulted && curName != "" {
 			var cur *rev
@@ -327,7 +384,7 @@ func body(r *explore.Run, rep *report.R, sc string, depth int, thorough bool, hi
 func TestCheck(t *testing.T) {
 	rep := report.New("C14", "fault_enumeration")
 	rep.Meta(
-		"Executions are event sequences of bounded depth over {reconcile (real manager.Reconciler + PackageRevisioner, scripted registry), source edits to 3-4 tags incl. rollbacks and a second tag of the same digest, revisionHistoryLimit edits, activation policy toggle, registry re-tag / failure, pull policy, revision health}; every API write of a reconcile is a fault point {error-before, conflict, error-after, crash-before, crash-after} (<= F deviations per sequence). DFS with state-hash pruning ranked by remaining depth. Non-trivial: sequences with >= 2 reconciles; distinct by (event trail, faults).",
+		"Executions are event sequences of bounded depth over menus drawn from {reconcile (real manager.Reconciler + PackageRevisioner, scripted registry), source edits to 3-4 tags incl. rollbacks and a second tag of the same digest, revisionHistoryLimit edits, activation policy toggle, registry re-tag / failure, pull policy, revision health} (base menu: the first 8; registry menu: reconcile, two sources, re-tag, registry failure, IfNotPresent, from an established package; thorough adds the full 14-event menu at depth-1); every API write of a reconcile is a fault point {error-before, conflict, error-after, crash-before, crash-after} (<= F deviations per sequence). DFS with state-hash pruning ranked by remaining depth. Non-trivial: sequences with >= 2 reconciles; distinct by (event trail, faults).",
 		[]string{"simkube models the API server", "the registry is a scripted xpkg.Fetcher (tag -> digest table)", "'at most one Active' is judged on writes made by the package manager; no event makes a user activate a second revision"},
 		[]string{"simkube", "go-containerregistry name parsing (real)"},
 	)
@@ -337,10 +394,18 @@ func TestCheck(t *testing.T) {
 	}
 	rep.Bound("depth", depth)
 	rep.Bound("max_faults", bound)
-	th := report.Thorough()
 	scs := []report.Scenario{
-		{Name: "provider/fresh", Bound: bound, Prune: true, Wrap: report.Bubble(t), Body: func(r *explore.Run) { body(r, rep, "provider/fresh", depth, th, false) }},
-		{Name: "provider/history", Bound: bound, Prune: true, Wrap: report.Bubble(t), Body: func(r *explore.Run) { body(r, rep, "provider/history", depth-1, th, true) }},
+		{Name: "provider/fresh", Bound: bound, Prune: true, Wrap: report.Bubble(t), Body: func(r *explore.Run) { body(r, rep, "provider/fresh", depth, "base", "") }},
+		{Name: "provider/history", Bound: bound, Prune: true, Wrap: report.Bubble(t), Body: func(r *explore.Run) { body(r, rep, "provider/history", depth-1, "base", "history") }},
+		// Registry outages, re-tags and the IfNotPresent pull policy, from an
+		// established package.
+		{Name: "provider/registry", Bound: 1, Prune: true, Wrap: report.Bubble(t), Body: func(r *explore.Run) { body(r, rep, "provider/registry", depth, "registry", "established") }},
+	}
+	if report.Thorough() {
+		scs = append(scs,
+			report.Scenario{Name: "provider/registry-deep", Bound: 1, Prune: true, Wrap: report.Bubble(t), Body: func(r *explore.Run) { body(r, rep, "provider/registry-deep", depth+1, "registry", "established") }},
+			report.Scenario{Name: "provider/all-events", Bound: 1, Prune: true, Wrap: report.Bubble(t), Body: func(r *explore.Run) { body(r, rep, "provider/all-events", depth-1, "all", "") }},
+		)
 	}
 	rep.SelfCheck(t, scs[0], nil)
 	rep.RunScenarios(t, scs)
